@@ -258,8 +258,9 @@ def rule_ep_restore(ctx):
         sites = [(bi, i, s) for bi, i, s in b.stmts() if fields_of(s["lhs"]) == ("en_passant_file",)]
         somes = []
         nones = []
-        for bi, i, s in sites:
-            v = sym.rvalue(s["rv"])
+        for bi0, i, s in sites:
+          # `field = if c { Some(x) } else { None }` assigns a temporary set in the arms: the arms are the cases
+          for bi, v in C.value_cases(b, sym, bi0, s["rv"]):
             if v[0] == "agg" and v[2] == "Some":
                 somes.append((bi, v[3][0]))
             elif v[0] == "agg" and v[2] == "None":
@@ -288,6 +289,9 @@ def rule_ep_restore(ctx):
             if not sc:
                 continue
             e, neg = sc
+            ms = C.merged_bool_source(b, sym, blk.term["discr"])
+            if ms is not None and not ms[2]:
+                e = ms[1]       # false in the other arms, this where the record exists: the test is this value
             if "is_double_pawn_push" in expr_str(e) or closure_reads_flag(ix, e):
                 g = (d, e, neg)
                 break
@@ -295,11 +299,12 @@ def rule_ep_restore(ctx):
                   bad_what="the Some(file) assignment is not guarded by is_double_pawn_push of the record")
         if g:
             cons = C.constraints_for(ix, b, sym, sb)
-            extra = [(c[0][:60], sorted(map(str, c[1]))) for c in cons if c[2] != g[0]]
+            extra = [(c[0], sorted(map(str, c[1]))) for c in cons if c[2] != g[0]]
             if key == UNMAKE:
                 # `match history.last() { Some(r) if r.flag => .. }`: that the record exists is part of the same test
                 # (an empty history restores None, exactly like is_some_and on the Option)
                 extra = [x for x in extra if not (x[0].startswith("discr(") and "::last(" in x[0] and "history" in x[0] and x[1] == ["Some"])]
+            extra = [(x[0][:60], x[1]) for x in extra]
             # every path assigns the field, and neither assignment can be followed by the other
             always = (mir.EXIT not in b.reachable_from(0, removed={sb, nones[0]}, include_start=True)
                       and nones[0] not in b.reachable_from(sb) and sb not in b.reachable_from(nones[0]))
